@@ -456,3 +456,59 @@ Theorem C05_shared_packet_refuted : forall m1 m2, m1 <> m2 ->
   w_cmd s = [m1; m2] /\ w_out s = [m2; m2] /\ w_out s <> w_cmd s /\ w_resent s = [(m1, m2)].
 Proof. exact shared_packet_refuted. Qed.
 Print Assumptions C05_shared_packet_refuted.
+
+(* ---------------------------------------------------------------- the period: ints and floats *)
+(* LogConfig(name, period_in_ms) with period_in_ms = a/b exactly (an int: b = 1; a float: its
+   as_integer_ratio): the period byte is int(period_in_ms / 10) -- fperiod: quotient rounded to binary64,
+   truncated towards zero.  Acceptance (C05_accept_iff) and the START request on the create acknowledgement
+   (C05_start_sent_on_create_ack) are stated on that integer, whatever the type of the argument was. *)
+Theorem C05_period_of_new_config : forall s num den,
+  let '(s1, o, x) := step s (ENew num den) in
+  c_period (get s1 (length (s_cfgs s))) = fperiod num den /\ o = [] /\ x = None.
+Proof. exact period_of_new_config. Qed.
+Print Assumptions C05_period_of_new_config.
+
+(* integer periods: the same as integer division, for every ms in [-200, 3400) (complete enumeration) *)
+Theorem C05_int_period_is_quot : forall ms, -200 <= ms < 3400 -> fperiod ms 1 = Z.quot ms 10.
+Proof. exact int_period_is_quot. Qed.
+Print Assumptions C05_int_period_is_quot.
+
+(* ---------------------------------------------------------------- refused creation, start() again (wave 12) *)
+(* start() of an accepted configuration that is not added always sends the creation messages -- `pending`
+   (creation in flight) does not hold it back; so after a refused creation a later start() creates again *)
+Theorem C05_start_not_added_creates : forall s h,
+  c_cf (get s h) = true -> s_link s = true -> c_added (get s h) = false -> create_guard s (get s h) = true ->
+  start s h = (put s h (set_pending (get s h) (c_pending (get s h) + 1)),
+               fst (create_msgs (c_v2 (get s h)) (s_toc s) (c_id (get s h)) (c_vars (get s h))),
+               snd (create_msgs (c_v2 (get s h)) (s_toc s) (c_id (get s h)) (c_vars (get s h)))).
+Proof. exact start_not_added_creates. Qed.
+Print Assumptions C05_start_not_added_creates.
+
+(* what a refused creation does: err_no, added_cb(False), error_cb; flags and pending unchanged, nothing sent *)
+Theorem C05_refused_create_ack : forall s cmd id status h,
+  (cmd =? g_cmd_create) || (cmd =? g_cmd_create_v2) = true -> find_block s id = Some h ->
+  (status =? 0) || (status =? g_eexist) = false -> err_known status = true ->
+  on_settings s cmd id status =
+    (put s h (set_errno (get s h) status), [OCb cb_added_err h [0]; OCb cb_error h [status]], None).
+Proof. exact refused_create_keeps_pending. Qed.
+Print Assumptions C05_refused_create_ack.
+
+(* refusal (ENOMEM), then start() again: the code re-creates and the block gets added and started; the variant
+   that returns while `pending` is set (seeded/C05-l) sends nothing *)
+Theorem C05_pending_guarded_start_refuted :
+  let s := final init_st ex_refused_history in
+  flags (get s 0) = (false, false) /\ c_pending (get s 0) = 1 /\ c_errno (get s 0) = 12 /\
+  snd (fst (start s 0)) = [OWire 5 1 [6; 1; 17; 45; 1] [6; 1]] /\
+  snd (fst (start_guarded s 0)) = [] /\
+  (let s2 := final init_st (ex_refused_history ++ [EStart 0; EPacket 1 [6; 1; 0]; EPacket 1 [3; 1; 0]]) in
+   flags (get s2 0) = (true, true) /\ c_pending (get s2 0) = 0).
+Proof. exact ex_refused_then_start_again. Qed.
+Print Assumptions C05_pending_guarded_start_refuted.
+
+(* OBSERVATION (beyond the text; the model follows the code): a second start() before the create
+   acknowledgement sends the creation messages a second time *)
+Theorem C05_start_twice_observation :
+  let s := final init_st (ex_session ++ [ENew 100 1; EAddVar 0 1 1; EAddConfig 0; EStart 0]) in
+  snd (fst (start s 0)) = [OWire 5 1 [6; 1; 17; 45; 1] [6; 1]] /\ c_pending (get (fst (fst (start s 0))) 0) = 2.
+Proof. exact ex_start_twice_sends_create_twice. Qed.
+Print Assumptions C05_start_twice_observation.
